@@ -422,6 +422,14 @@ def far_shard(k, seed, tier, examples=10):
     camp = Campaign(PID, rule=RULE, tier=tier, seed=seed)
     data = st.fixed_dictionaries({"kind": st.just("data"), "place": st.sampled_from(DATA_PLACES),
                                   "size": st.one_of(st.integers(40, 5000), st.integers(L_DATA // 2, L_DATA - 3), st.integers(L_DATA + 3, L_DATA + 5000), st.integers(2 * L_DATA, 3 * L_DATA))})
+    def clamp(sc):
+        # where the state's input is (almost) its output, the output can exceed the limit only by the wrapper's few characters
+        if sc["place"] in ("pass_nonterminal", "pass_terminal", "task_selector_terminal", "parallel_nonterminal", "parallel_terminal") and sc["size"] > L_DATA + 5:
+            sc = dict(sc, size=L_DATA + 3 + sc["size"] % 3)
+        if sc["place"] in ("map_nonterminal", "map_terminal") and sc["size"] > 2 * L_DATA - 100:
+            sc = dict(sc, size=L_DATA + 3 + sc["size"] % (L_DATA - 200))
+        return sc
+    data = data.map(clamp)
     defs = st.fixed_dictionaries({"kind": st.just("definition"), "place": st.sampled_from(DEF_PLACES),
                                   "size": st.one_of(st.integers(200, 5000), st.integers(L_DEF // 2, L_DEF - 3), st.integers(L_DEF + 3, L_DEF + 5000))})
     alphabet = "abcXYZ019-_." + FORBIDDEN
